@@ -71,6 +71,12 @@ def run(chk, which="C10"):
                 seen.add((u[1], u[2]))
                 L.append(u)
             lists.append(L)
+        if ti == 0:
+            # one fixed list of two units whose authors wrote the origin in an unsigned rep (known finding N12: the library forms origin
+            # differences in the origins' common type, which wraps when that type is unsigned and the difference is negative)
+            decls.append("struct VfUa : au::Kelvins { static constexpr auto origin() { return au::kelvins(39u); } };")
+            decls.append("struct VfUb : decltype(au::Kelvins{} / au::mag<2>()) { static constexpr auto origin() { return (au::kelvins / au::mag<20>())(5463u); } };")
+            lists.append([("VfUa", Fraction(1), Fraction(39)), ("VfUb", Fraction(1, 2), Fraction(5463, 20))])
         for li, L in enumerate(lists):
             common = f'au::CommonPointUnitT<{", ".join(x[0] for x in L)}>'
             perms = list(itertools.permutations(range(len(L)))) + [tuple(list(range(len(L))) + [0])]
